@@ -1,6 +1,10 @@
 """C05 - exported Verilog (module and testbench) reproduces the simulation."""
 import time
 from elab import passcheck
+
+
+def _reraise():
+    raise
 from fam import designs
 
 FUNCS = 'pyrtl.importexport.output_to_verilog / output_verilog_testbench'
@@ -105,7 +109,8 @@ def _tb(task):
     try:
         return tbcheck.testbench(**task)
     except Exception:
-        return dict(failed=True, crashed=True, observed=traceback.format_exc()[-900:], expected='-')
+        from vlib.guard import guarded
+        return guarded(_reraise)
 
 
 def run(ctx):
